@@ -200,6 +200,14 @@ class Engine:
                             if mr: ty=last_ident(re.sub(r"<'[a-z_]+>$",'',split_top(mr.group(1))[0].strip()))
                         self.nested_impls[(tr,ty,m.group(2))].append(b)
                         continue
+                    if tr=='EnumIter':
+                        # strum's derive: `impl IntoEnumIterator for E` plus the iterator struct `EIter` and its impls
+                        meth=m.group(2)
+                        if meth=='iter': tr='IntoEnumIterator'
+                        else:
+                            pt=b.params[0][1] if b.params else ''
+                            ty=last_ident(pt) if pt else ty
+                            tr={'next':'Iterator','size_hint':'Iterator','nth':'Iterator','next_back':'DoubleEndedIterator','len':'ExactSizeIterator','clone':'Clone','get':None}.get(meth,tr)
                     self.impl_index[(tr,ty,m.group(2))].append(b)
                     if tr=='Error' and m.group(2)=='fmt':       # #[derive(thiserror::Error)] generates the Display impl
                         self.impl_index[('Display',ty,'fmt')].append(b)
